@@ -287,6 +287,27 @@ func (g *gen) statement(t reflect.Type, depth int) (*Stmt, reflect.Type) {
 	n := 1 + g.rng.Intn(4)
 	for i := 0; i < n; i++ {
 		switch k := g.rng.Intn(14); {
+		case len(st.Es) == 0 && depth > 0 && t.Kind() != reflect.Slice && g.rng.Intn(5) == 0:
+			// Combine of prefixes / suffixes of lists the document hands out (the arguments are evaluated on the current input)
+			a1, t1 := g.chain(t, 1, false)
+			if len(a1) == 1 && t1.Kind() == reflect.Slice && !nested(t1) {
+				arg := func() *Stmt {
+					s := &Stmt{Es: []*Expr{{K: "acc", N: a1[0].N}}}
+					if g.rng.Intn(4) > 0 {
+						s.Es = append(s.Es, &Expr{K: "call", F: []string{"First", "Last"}[g.rng.Intn(2)], Args: []*Stmt{{Es: []*Expr{g.numConst(t1)}}}})
+					}
+					return s
+				}
+				args := []*Stmt{arg(), arg()}
+				if g.rng.Intn(3) == 0 {
+					args = append(args, arg())
+				}
+				st.Es = append(st.Es, &Expr{K: "call", F: "Combine", Args: args})
+				t = t1
+			} else {
+				st.Es = append(st.Es, a1...)
+				t = t1
+			}
 		case k < 6 || len(st.Es) == 0:
 			es, nt := g.chain(t, 1+g.rng.Intn(2), false)
 			st.Es = append(st.Es, es...)
@@ -379,7 +400,7 @@ func familyDoc(rng *rand.Rand, n int) *gedcom.Document {
 	}
 	nf := 0
 	if n >= 2 {
-		nf = rng.Intn(3)
+		nf = rng.Intn(5)
 	}
 	for f := 1; f <= nf; f++ {
 		fmt.Fprintf(&b, "0 @F%d@ FAM\n", f)
@@ -563,7 +584,8 @@ func sameV(a, b V) bool {
 }
 
 var opPool = []string{"10", "9", "9.0", " 9", "9 ", "abc", "ABC ", " abc", "", "a", "B", "1943", "1e3", "0x10", "Inf", "NaN", "nan", "1_0", "+5", "-5", "5", "05",
-	"5.50", "5.5", ".5", "Zoë", "zoë", "true", "10 apples", "-0", "0"}
+	"5.50", "5.5", ".5", "Zoë", "zoë", "true", "10 apples", "-0", "0",
+	"ΠΑΠΑΔΟΠΟΥΛΟΣ", "παπαδοπουλος", "παπαδοπουλοσ", "Meiſter", "meister", "MEISTER", "İnan", "inan", "ınan", "INAN", "\u212a", "k", "K", "ǅ", "ǆ", "Ǆ", "ß", "SS", "ss", "ẞ"}
 
 func Eval(w io.Writer, seed int64, n int) error {
 	rng := rand.New(rand.NewSource(seed))
@@ -596,12 +618,42 @@ func Eval(w io.Writer, seed int64, n int) error {
 			st, _ := g.statement(docT, 2)
 			stmts := []*Stmt{st}
 			law := ""
-			switch rng.Intn(6) {
-			case 0: // a variable is interchangeable with its definition
+			switch rng.Intn(8) {
+			case 0: // a variable is interchangeable with its definition: the head of the pipeline
 				if len(st.Es) >= 2 {
 					k := 1 + rng.Intn(len(st.Es)-1)
 					def := &Stmt{Name: "Things", Es: st.Es[:k]}
 					use := &Stmt{Es: append([]*Expr{{K: "var", N: "Things"}}, st.Es[k:]...)}
+					stmts = []*Stmt{def, use}
+					law = "inline"
+				}
+			case 1, 2: // ... the tail of the pipeline, evaluated on the current item wherever it is referenced. Every statement is
+				// also evaluated on the document, so a well-typed tail is one that means something on the document too
+				es, t := g.chain(docT, 1+rng.Intn(2), false)
+				if t != nil && !nested(t) && !isScalar(elemType(t)) && len(es) > 0 {
+					tails := [][]*Expr{{{K: "call", F: "Length"}}, {{K: "call", F: "First", Args: []*Stmt{{Es: []*Expr{g.numConst(t)}}}}}}
+					onDoc := map[string]bool{}
+					onDocT := map[string]reflect.Type{}
+					for _, m := range accessorsOf(docT) {
+						onDoc[m.name] = true
+						onDocT[m.name] = m.out
+					}
+					for _, m := range accessorsOf(elemType(t)) {
+						if onDoc[m.name] && onDocT[m.name] == m.out {
+							tails = append(tails, []*Expr{{K: "acc", N: m.name}}, []*Expr{{K: "acc", N: m.name}, {K: "call", F: "Length"}})
+							if more, _ := g.chain(m.out, 1, false); len(more) == 1 && m.out.Kind() != reflect.Slice {
+								tails = append(tails, []*Expr{{K: "acc", N: m.name}, more[0]})
+							}
+						}
+					}
+					tail := tails[rng.Intn(len(tails))]
+					st = &Stmt{Es: append(append([]*Expr{}, es...), tail...)}
+					def := &Stmt{Name: "Tail", Es: tail}
+					use := &Stmt{Es: append(append([]*Expr{}, es...), &Expr{K: "var", N: "Tail"})}
+					if rng.Intn(3) == 0 && t.Kind() == reflect.Slice { // or as the field of an object
+						st = &Stmt{Es: append(append([]*Expr{}, es...), &Expr{K: "obj", Keys: []string{"a"}, Vals: []*Stmt{{Es: tail}}})}
+						use = &Stmt{Es: append(append([]*Expr{}, es...), &Expr{K: "obj", Keys: []string{"a"}, Vals: []*Stmt{{Es: []*Expr{{K: "var", N: "Tail"}}}}})}
+					}
 					stmts = []*Stmt{def, use}
 					law = "inline"
 				}
